@@ -41,6 +41,10 @@ class CallModels:
             return {'True': VBool(t.TRUE), 'False': VBool(t.FALSE), 'None': NONE}[name]
         if self.src.is_exc_class(name):
             return VClass(self.src.exc_canon(name))
+        if name in self.src.singletons and self.interface is not None:
+            r = self.interface.singleton(eng, name, st)
+            if r is not None:
+                return r
         if name in self.src.classes or name in ('Container', 'ListContainer'):
             return VClass(name)
         if name in BUILTIN_FUNCS or name in BUILTIN_TYPES:
@@ -87,6 +91,9 @@ class CallModels:
         if isinstance(b, VClass):
             q = self.src.resolve_method(b.name, attr) if b.name in self.src.classes else None
             if q:
+                fn = self.src.find(q)
+                if any(isinstance(d, ast.Name) and d.id == 'staticmethod' for d in fn.decorator_list):
+                    return [(st, VFunc(attr, model=('function', q)))]
                 return [(st, VFunc(attr, model=('classmethod', q, b.name)))]
             if self.interface is not None:
                 r = self.interface.class_attr(eng, b, attr, st)
@@ -214,6 +221,8 @@ class CallModels:
                 return self.seq_index(eng, st, k, o.len, lambda i: VInt(t.select(o.arr, i)), 'bytearray')
         if isinstance(b, VBytes):
             return self.seq_index(eng, st, k, b.len, lambda i: VInt(b.at(i)), 'bytes')
+        if b.kind == 'map':
+            return self.interface.map_index(eng, b, k, st)
         if isinstance(b, VTuple):
             iv, ok = eng.as_int(k, st)
             if iv is not None and iv.op == 'int' and -len(b.items) <= iv.args[0] < len(b.items):
@@ -386,6 +395,10 @@ class CallModels:
                 # path-extension format used by Renamed: ' -> %s' % (name,)
                 if specs == ['s'] and isinstance(args[0], VStr) and args[0].t is not None and f.endswith('%s') and f.count('%') == 1:
                     res = VStr(t.str_concat(S(f[:-2]), args[0].t))
+                elif specs == ['s'] and isinstance(args[0], VDyn) and f.endswith('%s') and f.count('%') == 1:
+                    from . import prelude
+                    prelude.declare_fun('tostr', [t.VAL], t.STR)
+                    res = VStr(t.str_concat(S(f[:-2]), t.app('tostr', t.STR, args[0].t)))
                 else:
                     res = VStr(None)
                 return eng.typed(st, okc, lambda st1: [(st1, res)], '%d formatting')
@@ -433,6 +446,17 @@ class CallModels:
             if isinstance(o, VParam):
                 return t.and_(t.not_(o.callable_t), self.identity(eng, self.param_const(eng, o, st), NONE, st))
             return t.FALSE
+        if a.kind == 'typeof' or b.kind == 'typeof':
+            ty, other = (a, b) if a.kind == 'typeof' else (b, a)
+            from . import builtins
+            names = builtins.type_names(eng, other, st)
+            v = ty.v
+            if names == ['int']:
+                # exact type: bool is not int
+                if isinstance(v, VDyn):
+                    return t.app('(_ is VInt)', t.BOOL, v.t)
+                return Bc(isinstance(v, VInt))
+            return builtins.type_test(self, eng, v, names[0], st)
         if isinstance(a, VClass) and isinstance(b, VClass):
             return Bc(a.name == b.name)
         if isinstance(a, VFunc) and isinstance(b, VFunc):
@@ -461,6 +485,8 @@ class CallModels:
                     return [(st, VBool(t.or_(*conds)))]
             if isinstance(o, OContainer) and self.interface is not None:
                 return self.interface.container_contains(eng, container, o, item, st)
+        if container.kind == 'map':
+            return self.interface.map_contains(eng, container, item, st)
         if isinstance(container, VStr) and isinstance(item, VStr):
             if container.t is not None and item.t is not None:
                 if container.t.op == 'strlit' and item.t.op == 'strlit':
